@@ -37,7 +37,7 @@ TIERS = {
                   families=['uniform', 'words', 'perms', 'removal', 'cover', 'afterfail', 'wordrem'], chks=['TRUE', 'FALSE'], shards=40, RM=4, remadds=3, planlen=8, planmax=250),
     'thorough': dict(K=10, R=4, depth_small=4, depth_big=3, small=6, wordlen=5, wordlen_big=4, big=12, maxpersym=2, maxrare=1,
                      ops=['add', 'fwd', 'remove', 'replace', 'tostring', 'tostring_ic', 'dotelem', 'dotnone'],
-                     families=['uniform', 'words', 'perms', 'removal', 'cover', 'afterfail', 'wordrem'], chks=['TRUE', 'FALSE'], shards=64, RM=6, remadds=4, planlen=12, planmax=100000),
+                     families=['uniform', 'words', 'perms', 'removal', 'cover', 'afterfail', 'wordrem'], chks=['TRUE', 'FALSE'], shards=64, RM=6, remadds=4, planlen=12, planmax=100000, small_wordlen=6),
 }
 
 
@@ -85,6 +85,8 @@ def type_plan(J, t, P, unconstructible):
     small = len(sigma) <= P['small']
     depth = P['depth_small'] if small else P['depth_big']
     wl = P['wordlen'] if len(alpha) <= P['big'] else P['wordlen_big']
+    if len(J['alphabet'][t]) <= 8 and P.get('small_wordlen'):
+        wl = max(wl, P['small_wordlen'])     # small alphabets: longer valid words (thorough tier)
     edges = sum(len(v) for v in a['follow'].values())
     stride = max(1, -(-edges // P.get('planmax', 250)))
     return dict(sigma=sigma, multi=[x for x in multi if x in sigma], rare=rare, rem=rem, remadds=P.get('remadds', 3), depth=depth, wordlen=wl, stride=stride,
